@@ -92,6 +92,17 @@ def main():
             mod.search(ctx, driver, broken)
         except Exception:
             traceback.print_exc()
+    elif broken and not ctx.violations:
+        # no property-specific search: run the harness's own generators and implementation-level oracles again with
+        # another seed and four times the sample counts; only violations count, the correspondence is not consulted
+        ctx2 = common.Ctx(pid, "search", seed + 7919)
+        try:
+            mod.run(ctx2, driver)
+        except Exception:
+            traceback.print_exc()
+        ctx.violations.extend(ctx2.violations)
+        ctx.evaluations += ctx2.evaluations
+        ctx.notes.append(f"tie broken, no violation in the first pass: generic search with seed {seed + 7919} and 4x sample counts ran {ctx2.evaluations} more evaluations and found {len(ctx2.violations)} violation(s)")
 
     known = common.load_known(pid)
     new = []
